@@ -3,7 +3,7 @@ import os, itertools
 import numpy as np
 from . import core
 
-FAMILIES = ['missratio', 'concave', 'convex', 'plateau', 'collinear0', 'walk', 'vshape', 'elbows', 'steps', 'noisyline']
+FAMILIES = ['missratio', 'concave', 'convex', 'plateau', 'collinear0', 'walk', 'vshape', 'elbows', 'steps', 'noisyline', 'zeros']
 
 
 def _xs(rng, n, gaps=(1, 2, 3, 4)):
@@ -70,6 +70,19 @@ def dyadic_curve(rng, n, family=None, scale_exp=None):
             y.append(cur)
             if rng.random() < 0.3:
                 cur = max(0.0, cur - rng.randrange(1, 10) * q)
+    elif family == 'zeros':
+        # non-dyadic values with exact zeros: end-point lines that do not reproduce y = 0 bit-exactly
+        den = rng.choice([3.0, 7.0, 10.0, 1.0])
+        xs_ = rng.choice([1.0, 7.0, 0.1])
+        x = [xi * xs_ for xi in x]
+        y, cur = [], rng.randrange(5, 60) / den
+        for _ in range(n):
+            y.append(cur)
+            r = rng.random()
+            if r < 0.25:
+                cur = 0.0
+            elif r < 0.6:
+                cur = rng.randrange(0, 60) / den
     else:  # noisyline
         m = rng.randrange(-6, 7) * q
         y = [m * (xi - x[0]) + rng.choice([0, 0, 0, 1, -1]) * q / 4 for xi in x]
